@@ -216,3 +216,77 @@ class BuilderDriver:
 
 def driver(bname, alphabet):
     return BuilderDriver(bname, alphabet)
+
+
+# ---------------------------------------------------------------------------------------------
+# Tolerance staircase: the requested relative tolerance is placed on and next to every residual
+# the iteration itself produces. r_0 is the leftover fraction accepted under a tolerance of
+# 0.999; a tolerance just below r_k forces one more iteration and reveals r_{k+1}. Every one of
+# these flights must end within the requested tolerance or report non-convergence. Public API
+# only (Options / fly); each case is self-contained (variant, mission, tolerance, cap).
+STAIR_VARIANTS = {'plain': {}, 'lowlhv': {'legacy': dict(fuel_LHV=4.38e6)}}
+STAIR_MISSIONS = ['okA', 'okB', 'okC', 'okA_rev', 'okA@pm2', 'okB@pm2']
+STAIR_PLAN = {
+    # stairs, relative offsets below (+) / above (-) the residual, iteration caps relative to the stair index
+    'quick': dict(stairs=3, deltas=(1e-9, 1e-2, -1e-9), caps=(1, None)),
+    'thorough': dict(stairs=5, deltas=(1e-9, 1e-4, 1e-3, 1e-2, 5e-2, -1e-9, -1e-2), caps=(1, 2, 3, None)),
+}
+
+
+def stair_case(variant, ev, reltol, cap):
+    """One flight of the staircase on a brand-new builder. Returns (violations, leftover | None, outcome)."""
+    import AEIC.trajectories.builders as tb
+
+    _init()
+    o = dict(STAIR_VARIANTS[variant])
+    lo = dict(frac_step_clm=STEP, frac_step_crz=STEP, frac_step_des=STEP)
+    lo.update(o.pop('legacy', {}))
+    b = tb.LegacyBuilder(options=tb.Options(iterate_mass=True, max_mass_iters=cap, mass_iter_reltol=reltol, **o),
+                         legacy_options=tb.LegacyOptions(**lo))
+    got, traj = _fly(b, ev)
+    case = {'stair': {'variant': variant, 'event': ev, 'reltol': reltol, 'max_mass_iters': cap}}
+    where = f'mass iteration ({variant}) on {ev}, mass_iter_reltol={reltol!r}, max_mass_iters={cap}'
+    if got[0] == 'exc':
+        if got[1] == 'RuntimeError' and 'converge' in got[2]:
+            return [], None, 'non-convergence'
+        if variant == 'lowlhv' and got[1] == 'ValueError':
+            # a tenth of the real heating value: the corrected starting mass can leave the table's mass range,
+            # which is the documented out-of-envelope refusal, not a lost mission
+            return [], None, 'refused:envelope'
+        kind = f'internal-error:{got[1]}' if got[1] in INTERNAL else 'valid-mission-rejected'
+        return [V(kind, f'{where}: raised {got[1]}: {got[2]}', case=case)], None, 'exc:' + got[1]
+    left = abs(float(traj.fuel_mass[-1])) / float(traj.total_fuel_mass)
+    vio = []
+    if not (np.isfinite(left) and left < reltol):
+        vio.append(V('iteration-tolerance', f'{where}: returned a trajectory whose leftover trip fuel fraction {left!r} '
+                     f'is not below the requested tolerance and no non-convergence was reported', case=case))
+    return vio, left, 'ok'
+
+
+def stair_task(task):
+    """The whole staircase of one (variant, mission): sequential because each stair's tolerance is the
+    residual revealed by the previous one."""
+    variant, ev, tier = task
+    plan = STAIR_PLAN[tier]
+    vio, n, outcomes, stairs = [], 0, {}, []
+    v, r, oc = stair_case(variant, ev, 0.999, 50)
+    n += 1
+    vio += v
+    outcomes[oc] = outcomes.get(oc, 0) + 1
+    k = 0
+    while r is not None and r > 1e-13 and k < plan['stairs']:
+        stairs.append(r)
+        nxt = None
+        for d in plan['deltas']:
+            tol = r * (1.0 - d)
+            for c in plan['caps']:
+                cap = 50 if c is None else k + c
+                v, left, oc = stair_case(variant, ev, tol, cap)
+                n += 1
+                vio += v
+                outcomes[oc] = outcomes.get(oc, 0) + 1
+                if d == plan['deltas'][0] and c is None:
+                    nxt = left
+        r = nxt
+        k += 1
+    return {'violations': vio, 'flights': n, 'outcomes': outcomes, 'residuals': stairs, 'task': [variant, ev]}
